@@ -87,6 +87,7 @@ class Module:
         self.combs = []      # (stmt, line)
         self.syncs = []      # (clkname, stmt, line)
         self.readmem = {}    # memory name -> file name
+        self.initials = []   # (stmt, line): initial blocks with assignments, executed once at time 0
         self.scalars = set() # names declared without a range (bit/part-select on them is illegal)
         self.order = []      # textual order of processes: ("assign", i) / ("comb", i) / ("sync", i)
 
@@ -424,19 +425,33 @@ class Parser:
                     raise VlogUnsupported(f"line {ln}: sensitivity list")
             elif v == "initial":
                 self.nxt()
-                self.eat("begin")
-                while not self.at("end"):
-                    self.eat("$readmemh")
-                    self.eat("(")
-                    k2, fn, _ = self.nxt()
-                    if k2 != "str":
-                        raise VlogSyntaxError("file name expected")
-                    self.eat(",")
-                    mn = self.ident()
-                    self.eat(")")
-                    self.eat(";")
-                    M.readmem[mn] = fn
-                self.eat("end")
+                # `initial begin $readmemh("file", mem); end` (memory template) or constant assignments executed once at
+                # time 0 (`initial dummy_s <= 1'd0;`)
+                items = []
+                block = self.at("begin")
+                if block:
+                    self.nxt()
+                while True:
+                    if block and self.at("end"):
+                        self.nxt()
+                        break
+                    if self.at("$readmemh"):
+                        self.nxt()
+                        self.eat("(")
+                        k2, fn, _ = self.nxt()
+                        if k2 != "str":
+                            raise VlogSyntaxError("file name expected")
+                        self.eat(",")
+                        mn = self.ident()
+                        self.eat(")")
+                        self.eat(";")
+                        M.readmem[mn] = fn
+                    else:
+                        items.append(self.stmt())
+                    if not block:
+                        break
+                if items:
+                    M.initials.append((("block", items), ln))
             elif k == "id" and v in ("integer", "parameter", "localparam", "function", "generate", "genvar", "task",
                                      "defparam", "specify", "tri", "wand", "wor", "supply0", "supply1"):
                 raise VlogUnsupported(f"line {ln}: module item {v}")
